@@ -21,8 +21,14 @@ Fixpoint tr_backward (tr : list name_ev) : Prop :=
    current lower bound min(label_start, offset) *)
 Definition tr_above (lb : Z) (tr : list name_ev) : Prop := forall e, In e tr -> lb <= ev_pos e.
 
-Definition name_post (c0 : cursor) (st : name_st) : Prop :=
-  cur_ok (ns_cur st) /\ same_block c0 (ns_cur st) /\ 0 <= ns_save st <= c_len c0 /\ tr_backward (ns_trace st).
+(* [off0]: the offset at which the name starts; the position the caller continues at lies
+   strictly after it (no jump: after the zero octet; otherwise after the first pointer) *)
+Definition save_inv (off0 so cur_off : Z) : Prop :=
+  (so = 0 -> off0 <= cur_off) /\ (so <> 0 -> off0 < so).
+
+Definition name_post (c0 : cursor) (off0 : Z) (st : name_st) : Prop :=
+  cur_ok (ns_cur st) /\ same_block c0 (ns_cur st) /\ 0 <= ns_save st <= c_len c0 /\ tr_backward (ns_trace st)
+  /\ (ns_save st = 0 -> off0 < c_off (ns_cur st)) /\ (ns_save st <> 0 -> off0 < ns_save st).
 
 Lemma escape_label_safe ih want l : safe (fun _ => True) (escape_label ih want l).
 Proof.
@@ -56,23 +62,23 @@ Proof.
 Qed.
 
 Section Fwd.
-  Variables (ih want : bool) (c0 : cursor).
+  Variables (ih want : bool) (c0 : cursor) (off0 : Z).
   Variable jump : cursor -> Z -> Z -> list N -> list name_ev -> outcome name_st.
   Variable J : nat.
   Hypothesis Hjump : forall c ls so nb tr,
       cur_ok c -> same_block c0 c -> 0 <= so <= c_len c0 -> 0 <= ls ->
       tr_backward tr -> tr_above (Z.min ls (c_off c)) tr ->
-      (Z.to_nat (Z.min ls (c_off c)) < J)%nat ->
-      safe (name_post c0) (jump c ls so nb tr).
+      (Z.to_nat (Z.min ls (c_off c)) < J)%nat -> save_inv off0 so (c_off c) ->
+      safe (name_post c0 off0) (jump c ls so nb tr).
 
   Lemma name_fwd_safe : forall bf c ls so nb tr,
       cur_ok c -> same_block c0 c -> 0 <= so <= c_len c0 -> 0 <= ls ->
       tr_backward tr -> tr_above (Z.min ls (c_off c)) tr ->
       (Z.to_nat (c_len c - c_off c) < bf)%nat ->
-      (Z.to_nat (Z.min ls (c_off c)) < S J)%nat ->
-      safe (name_post c0) (name_fwd ih want jump bf c ls so nb tr).
+      (Z.to_nat (Z.min ls (c_off c)) < S J)%nat -> save_inv off0 so (c_off c) ->
+      safe (name_post c0 off0) (name_fwd ih want jump bf c ls so nb tr).
   Proof.
-    induction bf as [|bf IH]; intros c ls so nb tr Hc Hsb Hso Hls Hbw Hab Hbf HJ; [lia|].
+    induction bf as [|bf IH]; intros c ls so nb tr Hc Hsb Hso Hls Hbw Hab Hbf HJ Hsv; [lia|].
     cbn [name_fwd]. rewrite get_position_ok. cbn [bind].
     set (ls' := if ls >? c_off c then c_off c else ls).
     assert (Hls' : ls' = Z.min ls (c_off c)).
@@ -106,10 +112,15 @@ Section Fwd.
         intros e He. specialize (Hab1 e He). lia.
       + simpl c_off. intros e [<- | He]; [simpl; lia|]. specialize (Hab1 e He). lia.
       + simpl c_off. lia.
+      + destruct Hsv as [Hsv1 Hsv2]. unfold save_inv. simpl c_off.
+        destruct (so =? 0) eqn:Eso.
+        * apply Z.eqb_eq in Eso. specialize (Hsv1 Eso). split; intros; lia.
+        * apply Z.eqb_neq in Eso. specialize (Hsv2 Eso). split; intros; lia.
     - destruct (negb (Z.land b 192 =? 0)); [simpl; status_ne|].
       destruct (b =? 0) eqn:Eb0.
       + (* terminating zero octet *)
-        unfold name_post; cbn [safe ns_cur ns_save ns_trace tr_backward]. repeat split; try apply Hc1; try apply Hsb01; try lia. assumption.
+        destruct Hsv as [Hsv1 Hsv2].
+        unfold name_post; cbn [safe ns_cur ns_save ns_trace tr_backward]. repeat split; try apply Hc1; try apply Hsb01; try lia; try assumption.
       + apply Z.eqb_neq in Eb0.
         eapply safe_bind; [apply (fetch_dnsname_into_buf_safe c1 want _ b ih Hc1); lia|].
         intros [nb' c4] (Hc4 & Hsb4 & Ho4). cbn [fst snd] in *.
@@ -119,20 +130,21 @@ Section Fwd.
         * intros e He. specialize (Hab1 e He). lia.
         * assert (c_len c4 = c_len c) by (destruct Hsb1, Hsb4; congruence). destruct Hc4 as (? & ? & ?). lia.
         * lia.
+        * destruct Hsv as [Hsv1 Hsv2]. split; [intros Eso; specialize (Hsv1 Eso); lia | assumption].
   Qed.
 End Fwd.
 
-Lemma name_seg_safe ih want c0 bf0 :
+Lemma name_seg_safe ih want c0 off0 bf0 :
   (Z.to_nat (c_len c0) < bf0)%nat ->
   forall jf c ls so nb tr,
     cur_ok c -> same_block c0 c -> 0 <= so <= c_len c0 -> 0 <= ls ->
     tr_backward tr -> tr_above (Z.min ls (c_off c)) tr ->
-    (Z.to_nat (Z.min ls (c_off c)) < jf)%nat ->
-    safe (name_post c0) (name_seg ih want bf0 jf c ls so nb tr).
+    (Z.to_nat (Z.min ls (c_off c)) < jf)%nat -> save_inv off0 so (c_off c) ->
+    safe (name_post c0 off0) (name_seg ih want bf0 jf c ls so nb tr).
 Proof.
-  intros Hbf0. induction jf as [|jf IH]; intros c ls so nb tr Hc Hsb Hso Hls Hbw Hab HJ; [lia|].
+  intros Hbf0. induction jf as [|jf IH]; intros c ls so nb tr Hc Hsb Hso Hls Hbw Hab HJ Hsv; [lia|].
   cbn [name_seg].
-  apply (name_fwd_safe ih want c0 (name_seg ih want bf0 jf) jf); try assumption.
+  apply (name_fwd_safe ih want c0 off0 (name_seg ih want bf0 jf) jf); try assumption.
   destruct Hsb as [_ Hl]. destruct Hc as (? & ? & ?). lia.
 Qed.
 
@@ -145,14 +157,15 @@ Qed.
 (* the whole of ares_dns_name_parse, for any fuel at least name_fuel *)
 Lemma dns_name_parse_tr_safe fuel c want ih :
   cur_ok c -> (name_fuel c <= fuel)%nat ->
-  safe (fun r => cur_ok (snd (fst r)) /\ same_block c (snd (fst r)) /\ tr_backward (snd r))
+  safe (fun r => cur_ok (snd (fst r)) /\ same_block c (snd (fst r)) /\ tr_backward (snd r)
+                  /\ c_off c < c_off (snd (fst r)))
        (dns_name_parse_tr fuel c want ih).
 Proof.
   intros Hc Hf. unfold dns_name_parse_tr, name_fuel in *. rewrite get_position_ok. cbn [bind].
   eapply safe_bind.
   - apply badresp_to_badname_safe.
     assert (H0 : 0 <= c_off c <= c_len c) by (destruct Hc; lia).
-    apply (name_seg_safe ih want c fuel).
+    apply (name_seg_safe ih want c (c_off c) fuel).
     + lia.
     + assumption.
     + apply same_block_refl.
@@ -161,23 +174,27 @@ Proof.
     + exact I.
     + intros e [].
     + lia.
-  - intros st (Hcs & Hsb & Hsave & Hbw).
-    destruct (negb (ns_save st =? 0)).
-    + rewrite set_position_spec. cbn [bind safe fst snd].
-      destruct (ns_save st >? c_len (ns_cur st)) eqn:E; cbn [snd]; [auto|].
-      rewrite Z.gtb_ltb in E. apply Z.ltb_ge in E.
-      split; [apply cur_ok_set_off; [assumption | lia]|].
-      split; [eapply same_block_trans; [eassumption | apply set_off_same] | assumption].
-    + simpl. auto.
+    + split; intros; lia.
+  - intros st (Hcs & Hsb & Hsave & Hbw & Hs0 & Hs1).
+    destruct (ns_save st =? 0) eqn:Es; cbn [negb].
+    + apply Z.eqb_eq in Es. simpl. auto.
+    + apply Z.eqb_neq in Es.
+      rewrite set_position_spec. cbn [bind safe fst snd].
+      assert (Hl : c_len (ns_cur st) = c_len c) by apply Hsb.
+      destruct (ns_save st >? c_len (ns_cur st)) eqn:E; cbn [snd].
+      * rewrite Z.gtb_ltb in E. apply Z.ltb_lt in E. lia.
+      * split; [apply cur_ok_set_off; [assumption | lia]|].
+        split; [eapply same_block_trans; [eassumption | apply set_off_same]|].
+        split; [assumption | simpl; auto].
 Qed.
 
 Lemma dns_name_parse_safe fuel c want ih :
   cur_ok c -> (name_fuel c <= fuel)%nat ->
-  safe (fun r => cur_ok (snd r) /\ same_block c (snd r)) (dns_name_parse fuel c want ih).
+  safe (fun r => moved_on c (snd r)) (dns_name_parse fuel c want ih).
 Proof.
   intros Hc Hf. unfold dns_name_parse.
   eapply safe_bind; [apply (dns_name_parse_tr_safe fuel c want ih Hc Hf)|].
-  intros [[nm c'] tr] (H1 & H2 & _). simpl. auto.
+  intros [[nm c'] tr] (H1 & H2 & _ & H3). simpl. repeat split; try apply H1; try apply H2. assumption.
 Qed.
 
 (* ---- the three C02 name statements ---- *)
@@ -193,7 +210,7 @@ Proof. intros. eapply safe_not_fuel. apply dns_name_parse_tr_safe; assumption. Q
 Theorem name_parse_pointers_backward fuel c want ih nm c' tr :
   cur_ok c -> (name_fuel c <= fuel)%nat ->
   dns_name_parse_tr fuel c want ih = Ok (nm, c', tr) ->
-  tr_backward tr /\ cur_ok c' /\ same_block c c'.
+  tr_backward tr /\ cur_ok c' /\ same_block c c' /\ c_off c < c_off c'.
 Proof.
   intros Hc Hf E. pose proof (dns_name_parse_tr_safe fuel c want ih Hc Hf) as H.
   rewrite E in H. simpl in H. tauto.
